@@ -204,7 +204,7 @@ prop('C15', COMMON +
      'fields of the checker\'s SsaAnalysisResult, which is only obtained from perform_ssa_analysis_on_module (no second '
      'scope resolver). NAV-VIA-SSA: every path of a navigation query that handles a local-name hit passes through the SSA '
      'lookup. LOC-GUARD: a cursor-position test gating the descent into a child tests a location of that child or of a node '
-     'containing it (sibling locations only where the parser provably widens them). RENAME-RELEVANCE: the unconditional rewrite of a variable occurrence is reached only behind a range test of the expression (or for the single child of a binder-free node). IDENT-ALPHABET keyword-gate: the new name is read back by the parser before a renaming is applied. PEEK-THEN-VISIT: where a function of the walker family inspects the variant of a child node it reaches through a slot of its parent, the variants it does not name are still handed to the family\'s visitor for that node type on every path (they are not treated as leaves). FIND-UNWRAP: a search result (`find` / `position`) that a request handler unwraps comes from a search whose predicate is the bare location-containment test that the preceding position lookup established - an added conjunct is not covered by that lookup. SEARCH-NO-EARLY-NONE: the cursor search (location_cover) uses `?` only on the results of child searches, never to turn the absence of an unrelated value into "nothing under the cursor" before the remaining children were searched. Does not decide capture-freedom of the new name or behavioural identity after rename.',
+     'containing it (sibling locations only where the parser provably widens them). RENAME-RELEVANCE: the unconditional rewrite of a variable occurrence is reached only behind a range test of the expression (or for the single child of a binder-free node). IDENT-ALPHABET keyword-gate: the new name is read back by the parser before a renaming is applied. PEEK-THEN-VISIT: where a function of the walker family inspects the variant of a child node it reaches through a slot of its parent, the variants it does not name are still handed to the family\'s visitor for that node type on every path (they are not treated as leaves). FIND-UNWRAP: a search result (`find` / `position`) that a request handler unwraps comes from a search whose predicate is the bare location-containment test that the preceding position lookup established - an added conjunct is not covered by that lookup. SEARCH-NO-EARLY-NONE: the cursor search (location_cover) uses `?` only on the results of child searches (or where no child search can follow), never to turn the absence of an unrelated value into "nothing under the cursor" before the remaining children were searched. Does not decide capture-freedom of the new name or behavioural identity after rename.',
      [ssa_shared.run, ssa_shared.run_nav_via_ssa, ssa_shared.run_ident_alphabet, printer_rules.run_pattern_parens, loc_guard.run, loc_guard.run_rename_relevance, loc_guard.run_search_no_early_none, scope.run_iflet_else, TI.make(['T-ren', 'T-ssa'])])
 
 # properties whose reports on the unchanged tree are not yet triaged are not claimed
